@@ -438,11 +438,22 @@ def _frames(sem, n, rng, limit):
     if not sem.modal:
         yield worlds, set()
         return
-    if len(pairs) <= 4:
+    if len(pairs) <= 9:
+        # every frame on <= 3 worlds that meets the frame condition, sparse ones first
+        frames = []
         for bits in itertools.product((0, 1), repeat=len(pairs)):
             R = {p for p, b in zip(pairs, bits) if b}
             if sem.frame_ok(worlds, R):
-                yield worlds, R
+                frames.append(R)
+        frames.sort(key=lambda R: (len(R), sorted(R)))
+        if len(frames) > limit:
+            # keep the sparsest third, sample the rest
+            keep = frames[:limit // 3]
+            rest = frames[limit // 3:]
+            rng.shuffle(rest)
+            frames = keep + rest[:limit - len(keep)]
+        for R in frames:
+            yield worlds, R
         return
     seen = set()
     tries = 0
@@ -462,7 +473,7 @@ def _frames(sem, n, rng, limit):
         seen.add(key)
         yield worlds, R
 
-def find_countermodel(sem, premises, conclusion, rng, budget=4000, max_worlds=3, extra_consts=1):
+def find_countermodel(sem, premises, conclusion, rng, budget=4000, max_worlds=3, extra_consts=1, frame_limit=400):
     """Bounded search. Returns (RModel, stats) with a *verified* countermodel or (None, stats).
     stats['exhaustive'] is True when the explored space covered every interpretation over the
     chosen frame sizes / domain (propositional arguments: the whole valuation space)."""
@@ -495,8 +506,8 @@ def find_countermodel(sem, premises, conclusion, rng, budget=4000, max_worlds=3,
     per = max(50, budget // max(1, len(const_sets) * len(list(sizes))))
     for consts in const_sets:
         for n in sizes:
-            frames = list(_frames(sem, n, rng, 12))
-            if n > 2 and sem.modal:
+            frames = list(_frames(sem, n, rng, 12 if n > 3 else frame_limit))
+            if n > 2 and sem.modal and len(frames) >= frame_limit:
                 stats['exhaustive'] = False
             share = max(20, per // max(1, len(frames)))
             for worlds, R in frames:
